@@ -378,6 +378,8 @@ struct ArraysWorld : World {
 				bool other = (op.c % 5) == 0;
 				const type_traits *tt = traits;
 				if (other) tt = kind == K_RAW ? chartraits : (kind == K_CHAR ? 0 : (ES == 16 && (op.c & 32) ? &OTHER16 : 0));
+				// a type that shares the finaliser but not the element size is another type: the old elements are finalised, none is reinterpreted
+				if (other && kind == K_TRACKED && !tt && (op.c & 64)) { tt = ES == 8 ? &TRAITS16 : &TRAITS8; st.hit("probe:retype_same_finaliser_other_size"); }
 				bool nocopy = H[h].buf && (H[h].buf->get_flags() & BufferNoCopy) != 0;
 				buffer *r; { Sut s(failn); r = mpt_array_reserve(AR(H[h]), len, tt); afired = g.fired; }
 				if (r && nocopy && !r->_used) m.clear();
